@@ -49,7 +49,7 @@ func checkC09(c *vkit.Ctx) {
 
 func runC09(c *vkit.Ctx, lab *Lab, r *rand.Rand, i int) {
 	lab.Wipe()
-	lc := lab.Gen(r, LabOpts{Skips: true, Counts: true, Parallel: true, Hostile: true, Fuzz: true})
+	lc := lab.Gen(r, LabOpts{Skips: true, Counts: true, Parallel: true, Hostile: true, Fuzz: true, Bench: true})
 	lc.Run = ""
 	lc.CI = r.IntN(4) == 0
 	prog, trimmed := lab.prog(i)
@@ -63,7 +63,7 @@ func runC09(c *vkit.Ctx, lab *Lab, r *rand.Rand, i int) {
 	}
 	own := BuildOwned(rec)
 	sd := lab.Seed(r, own, LabOpts{Stale: true, Shuffle: true, Hostile: true})
-	res := prog.RunChild(RunOpt{PkgDir: lab.PkgDir, Scenario: lc.withSkips(), Count: lc.Count, Extra: lc.Flags, Update: lc.Update, CI: lc.CI})
+	res := prog.RunChild(RunOpt{PkgDir: lab.PkgDir, Scenario: lc.withSkips(), Run: lc.Run, Count: lc.Count, Extra: lc.RunnerFlags(), Update: lc.Update, CI: lc.CI})
 	in := labSample(lc)
 	in["ci"] = lc.CI
 	if !res.Complete {
